@@ -553,8 +553,28 @@ func wrapReadScript(r *rng) []string {
 	return lines
 }
 
+// wrapLoadScript (known finding F20): a cache is saved under a clock far in the positive range and loaded under one far
+// in the negative range, so that the remaining lifetime of an entry (saved deadline - load clock) is 2^63 ns or more and
+// the int64 subtraction in LoadCacheFrom wraps.  C19 quantifies over all clock offsets between save and load.
+func wrapLoadScript(r *rng) []string {
+	c0 := int64(1)<<62 + int64(r.intn(1000000))
+	ttl := pick(r, []int64{1000000000, 3600000000000, 1 << 50})
+	back := int64(math.MaxInt64) - int64(r.intn(1000000)) // the clock moves back by almost 2^63
+	kind := pick(r, []string{"writing", "creating", "accessing"})
+	lines := []string{fmt.Sprintf("cfg bound=none expiry=%s:%d refresh=none exec=sync clock0=%d", kind, ttl, c0)}
+	n := 1 + r.intn(3)
+	for k := 1; k <= n; k++ {
+		lines = append(lines, fmt.Sprintf("set %d %d", k, 10+r.intn(50)))
+	}
+	lines = append(lines, "save 2", fmt.Sprintf("adv -%d", back), "loadfrom 2 same")
+	return lines
+}
+
 func genSeqScript(seed uint64, profile string) []string {
 	r := &rng{s: seed}
+	if profile == "persist" && r.chance(0.03) {
+		return wrapLoadScript(r)
+	}
 	if profile == "huge" && r.chance(0.15) {
 		return wrapReadScript(r)
 	}
